@@ -64,6 +64,8 @@ type Ctx struct {
 	Res     *Result
 	pending []pendingOp
 	Replay  string
+	Verif   string
+	Ops     map[string]bool
 	Corpus  string
 	Repo    string
 }
@@ -72,6 +74,9 @@ func newCtx(prop, tier string, seed int64, driver string) *Ctx {
 	return &Ctx{Prop: prop, Tier: tier, Seed: seed, Rng: rand.New(rand.NewSource(seed)), Driver: driver,
 		Res: &Result{Property: prop, Tier: tier, Seed: seed, Dist: map[string]int{}, distinct: map[string]bool{}, maxFailures: 40}}
 }
+
+// HasOp: whether the driver of this property's model group implements the op.
+func (c *Ctx) HasOp(op string) bool { return c.Ops[op] }
 
 func (c *Ctx) Thorough() bool { return c.Tier == "thorough" }
 
@@ -171,6 +176,13 @@ func (c *Ctx) Flush() {
 		switch o.mode {
 		case "exact":
 			agree = model == o.impl
+		case "normtext":
+			// the model answers "error" for any decode/encode error; otherwise exact ordered text
+			if strings.HasPrefix(model, "error") {
+				agree = o.impl == "error"
+			} else {
+				agree = model == o.impl
+			}
 		default:
 			mv, err1 := wire.Parse([]byte(model))
 			iv, err2 := wire.Parse([]byte(o.impl))
